@@ -116,7 +116,11 @@ end Ex
 
 /-- `db₀` is what the initial batch compile of watch mode reads from `fs₀` (the `.md` and the binary
 `.png` are not read), hence reflects it. -/
-theorem Ex.init : initializeSources repairedFacts Ex.cfg Ex.fs₀ = .ok Ex.db₀ := by decide +kernel
+theorem Ex.init : initializeSources repairedFacts Ex.cfg Ex.fs₀ = .ok Ex.db₀ := by
+  have h : (initializeSources repairedFacts Ex.cfg Ex.fs₀).toOption = some Ex.db₀ := by decide +kernel
+  cases hi : initializeSources repairedFacts Ex.cfg Ex.fs₀ with
+  | error e => rw [hi] at h; cases h
+  | ok db => rw [hi] at h; cases h; rfl
 
 example : Reflects Ex.cfg Ex.db₀ Ex.fs₀ := initialize_reflects _ _ _ Ex.init
 
